@@ -21,10 +21,11 @@ type QP struct {
 
 // FDef: Kind is a scalar kind or "N" (the shared nested message with a validated string s).
 type FDef struct {
-	Name string `json:"name"`
-	Kind string `json:"kind"`
-	Card string `json:"card"`
-	Rule string `json:"rule"` // "" | "max5" (string max_len 5)
+	Name  string `json:"name"`
+	Kind  string `json:"kind"`
+	Card  string `json:"card"`
+	Rule  string `json:"rule"`  // "" | "max5" (string max_len 5)
+	Oneof string `json:"oneof"` // name of the containing oneof, "" = none
 }
 
 type Rpc struct {
